@@ -112,6 +112,17 @@ def cases(tier: str, seed: int) -> List[Dict[str, Any]]:
                     if tau in (1e-3, 1e3):
                         continue  # (products of extreme branch weights underflow the half-precision range)
                     out.append({"forest": [[tau, fn, []], [tau, "tanh", [[tau, fn, []]]]], "shape": [3], "mode": mode, "seed": seed, "dtype": dt_})
+    # tau given as a Python int; and a history: the same layer first evaluated under inference_mode / no_grad
+    # (evaluation pass), then trained - in a fresh interpreter
+    for tau in (1, 2, 3):
+        for fn in ("tanh", "linear", "double"):
+            for mode in ("split_add", "apply"):
+                out.append({"forest": [[tau, fn, []]], "shape": [2, 3], "mode": mode, "seed": seed})
+                out.append({"forest": [[tau, fn, []], [tau, "tanh", [[tau, fn, []]]]], "shape": [3], "mode": mode, "seed": seed})
+    for tau in (0.5, None, 3.0):
+        for pre in ("inference_mode", "no_grad"):
+            for mode in ("split_add", "apply"):
+                out.append({"forest": [[tau, "tanh", []], [tau, "linear", []]], "shape": [2, 3], "mode": mode, "seed": seed, "pre_mode": pre, "fresh": True})
     nmax = 3 if tier == "quick" else 4
     sub = list(itertools.product(SUB_TAUS, SUB_FNS))
     for n in range(2, nmax + 1):
@@ -210,6 +221,10 @@ def run_case(case: Dict[str, Any]) -> Dict[str, Any]:
         ident += f"|{gmode}"
     if case.get("x_no_grad"):
         ident += "|stream_without_grad"
+    if case.get("pre_mode"):
+        ident += f"|after_{case['pre_mode']}_call"
+    if any(isinstance(t_, int) and not isinstance(t_, bool) for t_, _ in kinds(forest)):
+        ident += "|int_tau"
     if case.get("pre_dtype"):
         ident += f"|after_{case['pre_dtype']}_call"
     steps = 0
@@ -261,6 +276,11 @@ def run_case(case: Dict[str, Any]) -> Dict[str, Any]:
                 x = (x + t * b) / (1 + t * t) ** 0.5
             return x
 
+        if case.get("pre_mode") and draw == 0:
+            with {"inference_mode": torch.inference_mode, "no_grad": torch.no_grad}[case["pre_mode"]]():
+                impl(forest, x0.clone())  # evaluation pass first
+            pairs.clear()
+            store_i.clear()
         if case.get("pre_dtype") and draw == 0:
             # history: the same residual structure is first used in a low-precision dtype
             try:
